@@ -1207,6 +1207,7 @@ func TestVerifC10(t *testing.T) {
 			kk = lp.kT
 		}
 		var seqbuf []byte
+		done := 0
 		c10variants(m.instance(), kk, func(v []byte, edits int) {
 			mine := r.Mine(k)
 			k++
@@ -1227,7 +1228,8 @@ func TestVerifC10(t *testing.T) {
 				}
 			}
 			r.Count("D_edited_copies", 1)
-			if k%256 == 0 && r.Expired() {
+			done++
+			if done%64 == 0 && r.Expired() {
 				expired = true
 			}
 		})
